@@ -215,6 +215,8 @@ type RulesOpts struct {
 	Trailing []int
 	Tabs     bool
 	Between  []int
+	// InChain: a comment line (a commented-out SecRule) in front of the chained SecRule with this running number
+	InChain []int
 }
 
 func renderRuleFile(rf *RuleFile, o RulesOpts, header string, commentFor func(i int) string) {
@@ -245,6 +247,9 @@ func renderRuleFile(rf *RuleFile, o RulesOpts, header string, commentFor func(i 
 			ind := strings.Repeat("    ", k)
 			if o.Tabs {
 				ind = strings.Repeat("\t", k)
+			}
+			if k > 0 && secNo < len(o.InChain) && o.InChain[secNo] == 1 {
+				sb.WriteString(ind + "# SecRule ARGS \"@rx disabled-link\" \\" + nl + ind + "#     \"t:none,chain\"" + nl)
 			}
 			v := "ARGS"
 			if secNo < len(o.Vars) {
